@@ -8,6 +8,7 @@ import (
 	"encoding/json"
 	"flag"
 	"fmt"
+	"golang.org/x/tools/go/ssa"
 	"os"
 	"path/filepath"
 	"sort"
@@ -83,11 +84,42 @@ func main() {
 	selftest := flag.String("mutants", "", "run the mutant/variant self-test for this property id (or 'all') and print a table")
 	verbose := flag.Bool("v", false, "print every obligation")
 	manifest := flag.Bool("manifest", false, "print MANIFEST.json generated from the property table")
+	provDbg := flag.String("prov", "", "print provenance of stores/returns/call arguments of the module function with this key (debugging)")
 	dump := flag.String("dump", "", "print the SSA of the module function with this key (debugging)")
 	flag.Parse()
 	verifDir = *vdir
 	if *manifest {
 		emitManifest()
+		return
+	}
+	if *provDbg != "" {
+		c, err := Load(*repo, modPath, nil, nil)
+		if err != nil {
+			fmt.Println(err)
+			os.Exit(2)
+		}
+		pv := c.newProv()
+		for _, fn := range c.Funcs {
+			if c.FuncKey(fn) != *provDbg {
+				continue
+			}
+			for _, b := range fn.Blocks {
+				for _, ins := range b.Instrs {
+					switch x := ins.(type) {
+					case *ssa.Store:
+						fmt.Printf("%s  STORE %s <- %v\n", c.Pos(x.Pos()), pv.Origins(x.Addr), pv.Origins(x.Val))
+					case *ssa.Return:
+						for i, r := range retResults(x) {
+							fmt.Printf("%s  RETURN#%d %v\n", c.Pos(x.Pos()), i, pv.Origins(r))
+						}
+					case *ssa.Call:
+						for i, a := range x.Call.Args {
+							fmt.Printf("%s  CALL %s arg%d %v\n", c.Pos(x.Pos()), shortName(calleeFullName(x)), i, pv.Origins(a))
+						}
+					}
+				}
+			}
+		}
 		return
 	}
 	if *dump != "" {
